@@ -107,14 +107,23 @@ pub fn program(c: usize, prog: &str, user: &str, db: &str, pw: &str) -> Script {
 }
 
 pub fn scenario(mode: &str, pool_size: u32, progs: &[&str], gate: Gate) -> Scenario {
-    let cfg = Cfg::one(PoolCfg::simple("db", mode, pool_size, 1, 0));
+    scenario_cached(mode, pool_size, progs, gate, 0)
+}
+
+/// Same with the statement cache on (extended-protocol batches take the renaming / cache-hit paths).
+pub fn scenario_cached(mode: &str, pool_size: u32, progs: &[&str], gate: Gate, cache: usize) -> Scenario {
+    let mut pool = PoolCfg::simple("db", mode, pool_size, 1, 0);
+    if cache > 0 {
+        pool.extra = format!("prepared_statements_cache_size = {}\n", cache);
+    }
+    let cfg = Cfg::one(pool);
     let mut servers = cfg.servers();
     for s in servers.iter_mut() {
         s.gate = gate.clone();
     }
     let actors = progs.iter().enumerate().map(|(i, p)| program(i, p, "alice", "db", "alicepw").actor()).collect();
     Scenario {
-        name: format!("C01 mode={} pool_size={} progs={} gate={:?}", mode, pool_size, progs.join("+"), gate),
+        name: format!("C01 mode={} pool_size={} progs={} gate={:?}{}", mode, pool_size, progs.join("+"), gate, if cache > 0 { " cache=on" } else { "" }),
         toml: cfg.toml(),
         alt_tomls: vec![],
         servers,
@@ -332,6 +341,10 @@ pub fn build(tier: &str) -> SimCheck {
                 let others: Vec<&str> = PROGRAMS.to_vec();
                 for o in others {
                     scenarios.push(scenario(mode, pool_size, &[p, o], Gate::PerReply));
+                    let ext = |x: &str| ["exttxn", "batch2", "pipelined"].contains(&x);
+                    if ext(p) && (ext(o) || o == "txn") {
+                        scenarios.push(scenario_cached(mode, pool_size, &[p, o], Gate::PerReply, 8));
+                    }
                 }
             }
             // three clients
@@ -357,7 +370,7 @@ pub fn build(tier: &str) -> SimCheck {
         oracle: Box::new(oracle),
         bound: if thorough { 3 } else { 2 },
         limits: Limits { max_wall_s: if thorough { 2400.0 } else { 50.0 }, ..Default::default() },
-        rule: "scenario = pool mode x pool_size x tuple of client programs (simple, multi-statement, failed, extended, pipelined, COPY in/out/fail transactions), plus timeout scenarios (statement answered after statement_timeout with the client present / dropped / FIN / inside a transaction, idle-in-transaction timeout) next to three other clients; every schedule of client sends, backend reply deliveries and checkouts with at most `bound` deviations from run-to-completion order; distinct = distinct observable end-to-end histories".into(),
+        rule: "scenario = pool mode x pool_size x tuple of client programs (simple, multi-statement, failed, extended, pipelined, COPY in/out/fail transactions; extended-protocol pairs also with the statement cache on), plus timeout scenarios (statement answered after statement_timeout with the client present / dropped / FIN / inside a transaction, idle-in-transaction timeout) next to three other clients; every schedule of client sends, backend reply deliveries and checkouts with at most `bound` deviations from run-to-completion order; distinct = distinct observable end-to-end histories".into(),
         assumptions: vec![
             "reference backend (mockpg) is the trusted model of a PostgreSQL session".into(),
             "single-threaded runtime: interleavings at await-point granularity".into(),
